@@ -224,7 +224,8 @@ theorem lib_readName_raw (n d : List Nat) (hn : LibNameOk n = true) (hd : libEnd
     simp at h1
     simp [Lexer.readNameSt, h1.1.1, h1.1.2, ih hn.2, Lexer.consOut]
 
-theorem lib_next_name (n rest : List Nat) (hn : LibNameOk n = true) (hr : libEnds rest = true) :
+/-- a name written raw (the writer before commit 16fac722; content streams) -/
+theorem lib_next_name_raw (n rest : List Nat) (hn : LibNameOk n = true) (hr : libEnds rest = true) :
     Lexer.next (47 :: n ++ rest) = .ok (.name n, rest) := by
   have := lib_readName_raw n rest hn hr
   simp [Lexer.next, Lexer.nextToken, Lexer.isAsciiWs, this]
@@ -278,5 +279,68 @@ theorem lib_next_hexstr (bs rest : List Nat) (hb : allB (fun b => b < 256) bs = 
       unfold hexDigitUpper; split <;> omega
     simp [hexBytesUpper] at this
     simp [Lexer.next, Lexer.nextToken, Lexer.isAsciiWs, hexBytesUpper, hne, this]
+
+/-! ### `escape_pdf_name_bytes` + `read_name` -/
+
+theorem hexDigitUpper_ne_plus (k : Nat) (h : k < 16) : hexDigitUpper k ≠ 43 := by
+  unfold hexDigitUpper
+  by_cases h10 : k < 10
+  · simp [h10]; omega
+  · simp [h10]; omega
+
+theorem nameRegular_not_break (b : Nat) (h : nameRegular b = true) :
+    Lexer.isBreak b = false ∧ b ≠ 35 := by
+  simp [nameRegular] at h
+  simp [Lexer.isBreak, Lexer.isAsciiWs]
+  omega
+
+/-- **every** byte string: the `char`s `read_name` collects from `escape_pdf_name_bytes n` are
+    exactly the bytes `n` (regular bytes `byte as char`, `#XX` decoded and pushed `value as char`) -/
+theorem lib_readName_escName (n d : List Nat) (hb : NameBytes n = true) (hd : libEnds d = true) :
+    Lexer.readName (escapeName n ++ d) = .ok (n, d) := by
+  unfold Lexer.readName
+  unfold NameBytes at hb
+  induction n with
+  | nil =>
+    cases d with
+    | nil => rfl
+    | cons b r =>
+      simp [libEnds] at hd
+      simp [escapeName, Lexer.readNameSt, hd]
+  | cons x xs ih =>
+    rw [allB_cons] at hb
+    have hx : x < 256 := by simpa using hb.1
+    by_cases hp : nameRegular x = true
+    · have := nameRegular_not_break x hp
+      simp [escapeName, hp, Lexer.readNameSt, this.1, this.2, ih hb.2, Lexer.consOut]
+    · simp only [Bool.not_eq_true] at hp
+      have h1 := lex_hexVal_hexDigitUpper (x / 16 % 16) (by omega)
+      have h2 := lex_hexVal_hexDigitUpper (x % 16) (by omega)
+      have hn := hexDigitUpper_ne_plus (x / 16 % 16) (by omega)
+      have h35 : Lexer.isBreak 35 = false := by decide
+      simp [escapeName, hp, Lexer.readNameSt, h35, Lexer.hexPair, hn, h1, h2, ih hb.2, Lexer.consOut]
+      omega
+
+/-- the name token of the written name: `Token::Name` holds one `char` per written byte -/
+theorem lib_next_name_bytes (n rest : List Nat) (hn : NameBytes n = true) (hr : libEnds rest = true) :
+    Lexer.next (47 :: escapeName n ++ rest) = .ok (.name n, rest) := by
+  have := lib_readName_escName n rest hn hr
+  simp [Lexer.next, Lexer.nextToken, Lexer.isAsciiWs, this]
+
+theorem NameAscii_bytes (n : List Nat) (h : NameAscii n = true) : NameBytes n = true := by
+  unfold NameAscii at h
+  unfold NameBytes
+  induction n with
+  | nil => rfl
+  | cons x xs ih =>
+    rw [allB_cons] at h ⊢
+    refine ⟨?_, ih h.2⟩
+    have := h.1
+    simp at this ⊢
+    omega
+
+theorem lib_next_name (n rest : List Nat) (hn : NameAscii n = true) (hr : libEnds rest = true) :
+    Lexer.next (47 :: escapeName n ++ rest) = .ok (.name n, rest) :=
+  lib_next_name_bytes n rest (NameAscii_bytes n hn) hr
 
 end OxiVerif.C09
